@@ -163,6 +163,7 @@ func randomScenario(mode string, rng *rand.Rand, k int) scenario {
 			sc.Isolate = len(sc.Byz) > 0 && rng.Intn(2) == 0
 		}
 	}
+	sc.RebroadcastAfterRound = []int{-1, 0, 1}[rng.Intn(3)]
 	sc.Name = fmt.Sprintf("%s-%d", mode, k)
 	return sc
 }
